@@ -310,5 +310,5 @@ def kani_unit(cfg, family):
 
 
 for cfg in KANI_CFG:
-    for fam in ('reg', 'sym', 'symc', 'syma', 'm0', 'tab', 'ufs', 'fit', 'cvt', 'cops', 'cderived', 'crt', 'total', 'totald', 'noref', 'si', 'si2', 'conv'):
+    for fam in ('reg', 'sym', 'symc', 'syma', 'symx', 'm0', 'tab', 'ufs', 'fit', 'cvt', 'cops', 'cderived', 'crt', 'total', 'totald', 'noref', 'si', 'si2', 'conv'):
         register(f'kani_{cfg}:{fam}', kani_unit(cfg, fam))
